@@ -95,8 +95,33 @@ Fixpoint spec_from (allow : list N) (napps : nat) (hist rest : list obs) : bool 
   | [] => true
   | o :: t => step_ok allow napps hist o && spec_from allow napps (o :: hist) t
   end.
+
+(* The verdict must also follow the answers the applications WOULD give, in application order
+   (the oracle [ob_answers]), not only the answers the implementation chose to collect: the loop
+   stops at the first Yes or the first Err.  [step_ok] alone accepts a rejection whenever a
+   failed check was collected in the call — also one collected AFTER an application had already
+   recognised the peer.  An earlier verdict for the same peer may be reused (caching period):
+     allowlisted                       => admitted;
+     first answer that is not No = Yes => admitted, unless the peer was rejected as not
+                                          recognised earlier (reuse of that verdict);
+     otherwise (Err first, or all No)  => not admitted, unless the peer was admitted earlier. *)
+Definition verdict_before (r : result) (p : N) (hist : list obs) : bool :=
+  existsb (fun e => N.eqb (ob_peer e) p && result_eqb (ob_result e) r) hist.
+Definition order_ok (allow : list N) (hist : list obs) (o : obs) : bool :=
+  let p := ob_peer o in
+  if memN p allow then result_eqb (ob_result o) Admit else
+  match fst (scan (ob_answers o)) with
+  | SYes => result_eqb (ob_result o) Admit || verdict_before NotRecognized p hist
+  | _ => negb (result_eqb (ob_result o) Admit) || verdict_before Admit p hist
+  end.
+Fixpoint order_from (allow : list N) (hist rest : list obs) : bool :=
+  match rest with
+  | [] => true
+  | o :: t => order_ok allow hist o && order_from allow (o :: hist) t
+  end.
+
 Definition spec_ok (allow : list N) (napps : nat) (l : list obs) : bool :=
-  spec_from allow napps [] l.
+  spec_from allow napps [] l && order_from allow [] l.
 
 (* ---------- correspondence ---------- *)
 Record case := { c_allow : list N; c_napps : nat; c_obs : list obs }.
@@ -153,6 +178,17 @@ Fixpoint model_trace (allow : list N) (st : state) (steps : list step) : list ob
       {| ob_peer := p; ob_answers := a; ob_result := o_result o;
          ob_calls := map N.of_nat (seq 0 (o_calls o)) |} :: model_trace allow (o_after o) t
   end.
+
+(* the in-order part of the property of one observed validation (see [order_ok]) *)
+Definition order_prop (allow : list N) (hist : list obs) (o : obs) : Prop :=
+  let p := ob_peer o in
+  (In p allow -> ob_result o = Admit) /\
+  (~ In p allow -> first_is Yes (ob_answers o) ->
+     ob_result o = Admit \/
+     exists e, In e hist /\ ob_peer e = p /\ ob_result e = NotRecognized) /\
+  (~ In p allow -> ~ first_is Yes (ob_answers o) ->
+     ob_result o <> Admit \/
+     exists e, In e hist /\ ob_peer e = p /\ ob_result e = Admit).
 
 Definition all_asked (napps : nat) (o : obs) : Prop :=
   forall i, (i < napps)%nat -> In (N.of_nat i) (ob_calls o).
